@@ -167,6 +167,12 @@ class Tr:
         if isinstance(node, ast.IfExp):
             return '(if %s then %s else %s)' % (self.expr(node.test), self.expr(node.body, want),
                                                 self.expr(node.orelse, want))
+        if isinstance(node, ast.Subscript) and src(node.slice) == '0' and isinstance(node.value, ast.Call) \
+                and src(node.value.func) == 'numpy.where' and len(node.value.args) == 1 and self.spec.get('masked_loops'):
+            # numpy.where(<mask>)[0]: the indices at which the mask holds, in increasing order
+            jv = 'jw'
+            return '((Src.rangeUp 0 %s).filter (fun %s => %s))' % (self.spec['masked_loops']['count'], jv,
+                                                                   self.mask_expr(node.value.args[0], jv))
         if isinstance(node, ast.Subscript):
             base = node.value
             if isinstance(node.slice, ast.Slice):
@@ -207,6 +213,8 @@ class Tr:
                 return '(Src.zerosAR %s)' % self.expr(args[0])
             if f in ('int',) and len(args) == 1:
                 return self.expr(args[0])
+            if f == 'abs' and len(args) == 1:
+                return '(Int.natAbs %s : Int)' % self.expr(args[0])
             if f == 'max' and len(args) == 2:
                 return '(max %s %s)' % (self.expr(args[0]), self.expr(args[1]))
             if f == 'min' and len(args) == 2:
@@ -215,6 +223,29 @@ class Tr:
                 return self.expr(node.func.value)
             raise Unsupported('call ' + s)
         raise Unsupported('expression ' + s)
+
+    def _assign_chain(self, st):
+        """[(test, assignment)] if `st` is an if/elif chain (at least one elif, no final else) whose bodies
+        are single assignments to one and the same plain name; else None."""
+        chain = []
+        node = st
+        while True:
+            if not (len(node.body) == 1 and isinstance(node.body[0], ast.Assign) and len(node.body[0].targets) == 1
+                    and isinstance(node.body[0].targets[0], ast.Name)):
+                return None
+            if src(node.body[0]) in self.effects or (isinstance(node.body[0].value, ast.Call) and
+                                                     src(node.body[0].value.func).startswith('numpy.logical_')):
+                return None
+            chain.append((node.test, node.body[0]))
+            if not node.orelse:
+                break
+            if len(node.orelse) == 1 and isinstance(node.orelse[0], ast.If):
+                node = node.orelse[0]
+            else:
+                return None
+        if len(chain) < 2 or len({c[1].targets[0].id for c in chain}) != 1:
+            return None
+        return chain
 
     def mask_expr(self, node, jv):
         f = src(node.func) if isinstance(node, ast.Call) else None
@@ -283,6 +314,10 @@ class Tr:
     def let_target(self, t, val_text, rest, ind):
         st = src(t)
         wl = self.spec.get('writelogs', {})
+        if isinstance(t, ast.Subscript) and self.ty(t.slice) == 'List Int' and isinstance(t.value, ast.Name) \
+                and val_text == '__FLIP__':
+            nm = lname(t.value.id)
+            return '%slet %s := Src.flipAt %s %s\n%s' % (ind, nm, nm, self.expr(t.slice), rest)
         if isinstance(t, ast.Subscript) and src(t.value) in wl:
             log, idx = wl[src(t.value)]
             idx = idx.replace('$i', self.expr(t.slice))
@@ -334,10 +369,27 @@ class Tr:
             if note not in self.notes:
                 self.notes.append(note)
             return nxt(ind)
+        if s in self.spec.get('pre_effects', {}) and not getattr(st, '_pre_done', False):
+            st._pre_done = True
+            try:
+                return '%slet %s\n%s' % (ind, self.spec['pre_effects'][s], self.block(stmts, k, ind))
+            finally:
+                st._pre_done = False
         if isinstance(st, (ast.Expr, ast.Assign)) and s in self.effects:
             return '%slet %s\n%s' % (ind, self.effects[s], nxt(ind))
         if isinstance(st, (ast.Assign, ast.AugAssign)):
             self.defined.update(self.assigned([st]))
+        if isinstance(st, ast.If) and self.spec.get('join_ifs') and self._assign_chain(st):
+            # `if c1: x = e1 / elif c2: x = e2` (no final else): one conditional definition of `x`; where no
+            # condition holds Python leaves `x` undefined (a NameError if it is used), here it is `default`
+            chain = self._assign_chain(st)
+            nm = lname(chain[0][1].targets[0].id)
+            text = 'default'
+            for test, asg in reversed(chain):
+                text = 'if %s then %s else %s' % (self.expr(test), self.expr(asg.value, self.types.get(nm)), text)
+            ann = ' : ' + self.types[nm] if nm in self.types else ''
+            self.defined.add(nm)
+            return '%slet %s%s := %s\n%s' % (ind, nm, ann, text, nxt(ind))
         if isinstance(st, ast.If) and not st.orelse and self.spec.get('join_ifs') and src(st.test) not in self.assume_false and all(
                 (isinstance(b, ast.Assign) and len(b.targets) == 1) or
                 (isinstance(b, ast.Expr) and src(b) in self.effects) for b in st.body):
@@ -363,6 +415,8 @@ class Tr:
         if isinstance(st, ast.Return):
             if st.value is None or (self.spec.get('return_self') and src(st.value) == 'self'):
                 return k(ind)
+            if self.spec.get('ret_override'):
+                return ind + self.spec['ret_override'] + '\n'
             pre = self.with_draws(st.value, ind)
             val = self.expr(st.value, self.spec.get('ret_want'))
             extra = self.spec.get('ret_extra')
@@ -375,6 +429,9 @@ class Tr:
             # a boolean mask over the components: kept symbolic, read per component in the masked loops
             self.maskvars[st.targets[0].id] = st.value
             return nxt(ind)
+        if isinstance(st, ast.Assign) and len(st.targets) == 1 and isinstance(st.targets[0], ast.Subscript) \
+                and src(st.value) == 'numpy.logical_not(%s)' % src(st.targets[0]) and self.ty(st.targets[0].slice) == 'List Int':
+            return self.let_target(st.targets[0], '__FLIP__', nxt(ind), ind)
         if isinstance(st, ast.Assign) and len(st.targets) == 1:
             t = st.targets[0]
             pre = self.with_draws(st.value, ind)
@@ -675,6 +732,27 @@ KERNELS = [
                        'per_item': {'$v.birth_distribution.logpdf({p: xi[p] for p in $v.parameters})': 'Src.get birth $j',
                                     '$v.logpdf({p: xi[p] for p in $v.parameters}, {p: givenx[p] for p in $v.parameters})': 'Src.get inModel $j'}},
          carried=['lp']),
+    # --- NestedTransdimensional._jump (C10): which components are candidates, how many are chosen, which are
+    #     born / killed / moved, the proposed active set
+    dict(name='tdJump', file='epsie/proposals/nested_transdimensional.py', cls='NestedTransdimensional', func='_jump',
+         params=[('K', 'Int'), ('k', 'Int'), ('newk', 'Int'), ('current_state', 'List Bool'), ('chosen', 'List Int')],
+         ret='Int × List Bool × List (List Int × Int) × List (Int × Unit) × List (Int × Unit) × List (Int × Unit)',
+         types={'mask': 'List Int', 'proposed_state': 'List Bool', 'indx': 'List Int'},
+         bind={"fromx['_state']": 'current_state', 'out[self._index]': 'newk', 'fromx[self._index]': 'k',
+               'current_state.copy()': 'current_state',
+               'self.random_generator.choice(indx, size=abs(dk), replace=False).reshape(-1)': 'chosen'},
+         skip=['out = fromx.copy()', 'out.update(self.model_proposal.jump({self._index: fromx[self._index]}))',
+               "out.update({'_state': proposed_state})"],
+         effects={'out.update(prop.birth_distribution.birth)': 'bornW := Src.wr bornW j ()',
+                  'out.update({p: numpy.nan for p in prop.parameters})': 'killedW := Src.wr killedW j ()',
+                  'out.update(prop.jump({p: fromx[p] for p in prop.parameters}))': 'movedW := Src.wr movedW j ()'},
+         pre_effects={'mask = self.random_generator.choice(indx, size=abs(dk), replace=False).reshape(-1)':
+                      'choiceW := Src.wr choiceW indx (Int.natAbs dk : Int)'},
+         masked_loops={'over': 'self.proposals', 'index': 'j', 'count': 'K', 'per_item': {}},
+         carried=['bornW', 'killedW', 'movedW'], join_ifs=True,
+         prelude='let choiceW : List (List Int × Int) := []\n  let bornW : List (Int × Unit) := []\n'
+                 '  let killedW : List (Int × Unit) := []\n  let movedW : List (Int × Unit) := []',
+         ret_override='(newk, proposed_state, choiceW, bornW, killedW, movedW)'),
     # --- Chain.step: what is evaluated, decided and written where (C01, C08, C18); the transdimensional
     #     bookkeeping (`_state` entries) is C10's model and is not translated here
     dict(name='stepCore', file='epsie/chain/chain.py', cls='Chain', func='step',
